@@ -108,3 +108,11 @@ claim("C14",
       "re-application of every stored strategy of a non-empty class.",
       "Trusted: as C01; mirrors share the searcher's class database (their only side effect is a repeated set_stop_yielding).",
       "CrossHair symbolic execution (pattern D: solver-enumerated universes and schedules) + z3", "DESIGN.md 2/C14")
+claim("C17",
+      "Bounded symbolic execution with the clock as the solver variable: auto_search(max_expansion_time) runs under one shared "
+      "clock with a late reading at a symbolic position, so z3 enumerates every reading position of the run and the time limit "
+      "strikes after every reachable work packet; at each interruption point the searcher is pickled and restored, original and "
+      "copy are continued alike and must be equal, go through the same packets, build the same universe and give the same answers; "
+      "the final specification passes the C01/C02 oracles; pickling after 0..3 level-wise steps likewise.",
+      "Trusted: as C01; pickle (C boundary) runs on concrete state; packet stream observed by a class-level wrapper of _expand.",
+      "CrossHair symbolic execution (pattern D: solver-enumerated interruption points) + z3", "DESIGN.md 2/C17")
